@@ -1,5 +1,5 @@
 (* C16 — Status byte and IEEE 488.2 common commands follow the 488.2 status model. *)
-From VF Require Import Base Gen_Errors Status Status_proofs.
+From VF Require Import Base Gen_Errors Status Status_proofs Contrib ContribSpec Contrib_proofs.
 Open Scope N_scope.
 
 (* Bit k of the *STB? answer, for EVERY device state (hence every reachable one), both values of
@@ -53,6 +53,22 @@ Proof. exact rst_wai_frame. Qed.
 Example C16_example_mav_mss : stb_answer (set_sre dev_init 16) true = 80.
 Proof. reflexivity. Qed.
 
+(* The theorems above are about the operation-level device model (Status.v).  They transfer to the byte-level
+   full-stack model of Contrib.v (program-message bytes -> Lexer -> Tree dispatcher -> the mandated command tree ->
+   Response formatter -> error hook): on the canonical text of any operation list, in every device state reachable
+   from power-on by such messages, the full stack computes exactly the operation-level result (state, response
+   bytes, error), and never panics. *)
+Theorem C16_full_stack_refines : forall msgs mav us,
+  forallb (fun m => forallb renderable (snd m)) msgs = true -> forallb renderable us = true ->
+  dev_message (session_ops dev_init msgs) mav (units_text us) = Val (op_message (session_ops dev_init msgs) mav us).
+Proof. exact contrib_refines_ops_session. Qed.
+(* ... and in an arbitrary device state exactly when every queued error is renderable (a custom non-ASCII message
+   without extended text is not: the response formatter rejects it) *)
+Theorem C16_full_stack_refines_iff : forall d,
+  (forall mav us, forallb renderable us = true -> dev_message d mav (units_text us) = Val (op_message d mav us))
+  <-> queue_printable d = true.
+Proof. exact contrib_refines_ops_iff. Qed.
+
 Print Assumptions C16_stb_bits.
 Print Assumptions C16_summary_iff.
 Print Assumptions C16_stb_pure.
@@ -61,3 +77,5 @@ Print Assumptions C16_cls_effect.
 Print Assumptions C16_opc_sets_bit0.
 Print Assumptions C16_opcq_tst_answers.
 Print Assumptions C16_rst_wai_frame.
+Print Assumptions C16_full_stack_refines.
+Print Assumptions C16_full_stack_refines_iff.
